@@ -1006,6 +1006,11 @@ func (p *PathConds) edgeDNF(from, to *ssa.BasicBlock) []conj {
 					return neg
 				}
 			}
+			if bo, ok := v.(*ssa.BinOp); ok {
+				if out, ok := p.expandCompare(bo, want); ok {
+					return out
+				}
+			}
 			// `check(...) == nil` / `!= nil` for a side-effect-free helper that returns an error
 			if bo, ok := v.(*ssa.BinOp); ok && (bo.Op == token.EQL || bo.Op == token.NEQ) {
 				var cv ssa.Value
@@ -1044,4 +1049,174 @@ func calleeOrNil(call *ssa.Call) *ssa.Function {
 		return nil
 	}
 	return call.Call.StaticCallee()
+}
+
+// ---- conditional value helpers -------------------------------------------------------------
+// `func (s *T) tail() int { if s.d != nil { return s.d.id }; return s.id }` — a small,
+// loop-free, side-effect-free repo function whose result is one of several simple terms,
+// each under its own condition. A comparison against such a call is expanded by cases.
+
+type valAlt struct {
+	cond conj
+	term string
+}
+
+var valSumCache = map[*ssa.Function][]valAlt{}
+
+func (p *PathConds) valSummaryOf(g *ssa.Function) []valAlt {
+	if s, ok := valSumCache[g]; ok {
+		return s
+	}
+	valSumCache[g] = nil
+	t := p.t
+	if !t.w.InRepo(g) || len(g.Blocks) < 2 || len(g.Blocks) > 16 || isOpaquePred(g) {
+		return nil
+	}
+	res := g.Signature.Results()
+	if res.Len() != 1 || t.purity(g) < purReadOnly {
+		return nil
+	}
+	if b, ok := res.At(0).Type().Underlying().(*types.Basic); !ok || b.Info()&(types.IsInteger|types.IsString) == 0 {
+		return nil
+	}
+	for _, b := range g.Blocks {
+		if isLoopHeader(b) {
+			return nil
+		}
+	}
+	tg := t.w.TermsOf(g, t.eff)
+	pg := NewPathConds(tg)
+	var out []valAlt
+	clean := func(s string) bool {
+		bare := quotedRe.ReplaceAllString(s, `""`)
+		return !strings.Contains(bare, "@") && !tagRe.MatchString(bare) && !strings.Contains(bare, "phi(") && !strings.Contains(bare, "mu(") && !strings.Contains(bare, "new#")
+	}
+	for _, b := range g.Blocks {
+		if len(b.Instrs) == 0 {
+			continue
+		}
+		r, ok := b.Instrs[len(b.Instrs)-1].(*ssa.Return)
+		if !ok {
+			continue
+		}
+		d := pg.At(b)
+		if d.unknown || len(r.Results) != 1 {
+			return nil
+		}
+		if _, isPhi := r.Results[0].(*ssa.Phi); isPhi {
+			return nil
+		}
+		term := tg.Term(r.Results[0])
+		if !clean(term) {
+			return nil
+		}
+		for _, cj := range d.cs {
+			for _, l := range cj {
+				if !clean(l[1:]) {
+					return nil
+				}
+			}
+			out = append(out, valAlt{cond: cj, term: term})
+		}
+	}
+	if len(out) < 2 || len(out) > 8 {
+		return nil
+	}
+	valSumCache[g] = out
+	return out
+}
+
+// altsOfCall: the alternatives of a call of a conditional value helper, in the caller's terms.
+func (p *PathConds) altsOfCall(call *ssa.Call) ([]valAlt, bool) {
+	if call.Call.IsInvoke() || call.Call.StaticCallee() == nil {
+		return nil, false
+	}
+	sum := p.valSummaryOf(call.Call.StaticCallee())
+	if sum == nil {
+		return nil, false
+	}
+	var out []valAlt
+	for _, a := range sum {
+		cs, ok := p.substSummary(call, []conj{a.cond})
+		if !ok {
+			return nil, false
+		}
+		if len(cs) == 0 {
+			continue // contradictory at this call
+		}
+		ts, ok := p.substSummary(call, []conj{{"+" + a.term}})
+		if !ok || len(ts) != 1 || len(ts[0]) != 1 {
+			return nil, false
+		}
+		out = append(out, valAlt{cond: cs[0], term: ts[0][0][1:]})
+	}
+	return out, len(out) > 0
+}
+
+// cmpTerm builds the term of `a op b` the way Terms.compute does.
+func cmpTerm(op token.Token, a, b string, aConst, bConst bool) string {
+	switch op {
+	case token.EQL, token.NEQ:
+		if aConst {
+			a, b = b, a
+		} else if !bConst && a > b {
+			a, b = b, a
+		}
+	case token.GTR:
+		return "(" + b + " < " + a + ")"
+	case token.GEQ:
+		return "(" + b + " <= " + a + ")"
+	}
+	return "(" + a + " " + op.String() + " " + b + ")"
+}
+
+// expandCompare: a two-way branch on a comparison one of whose operands is a call of a
+// conditional value helper.
+func (p *PathConds) expandCompare(bo *ssa.BinOp, want bool) ([]conj, bool) {
+	switch bo.Op {
+	case token.EQL, token.NEQ, token.LSS, token.LEQ, token.GTR, token.GEQ:
+	default:
+		return nil, false
+	}
+	var alts []valAlt
+	left := false
+	if call, ok := bo.X.(*ssa.Call); ok {
+		if as, ok := p.altsOfCall(call); ok {
+			alts, left = as, true
+		}
+	}
+	if alts == nil {
+		if call, ok := bo.Y.(*ssa.Call); ok {
+			if as, ok := p.altsOfCall(call); ok {
+				alts = as
+			}
+		}
+	}
+	if alts == nil {
+		return nil, false
+	}
+	_, xc := bo.X.(*ssa.Const)
+	_, yc := bo.Y.(*ssa.Const)
+	var out []conj
+	for _, a := range alts {
+		var term string
+		if left {
+			term = cmpTerm(bo.Op, a.term, p.t.Term(bo.Y), false, yc)
+		} else {
+			term = cmpTerm(bo.Op, p.t.Term(bo.X), a.term, xc, false)
+		}
+		nt, neg := normCondTerm(term)
+		pos := want
+		if neg {
+			pos = !pos
+		}
+		lit := "-" + nt
+		if pos {
+			lit = "+" + nt
+		}
+		if n, ok := conjAdd(a.cond, lit); ok {
+			out = append(out, n)
+		}
+	}
+	return out, true
 }
